@@ -118,6 +118,18 @@ var c14OnCustomT bool // the scenario's script runs on the T of a Custom generat
 var c14Ops = []string{"Helper", "Name", "Log", "Logf", "Failed", "Context", "Cleanup", "Failed", "Context", "Cleanup", "Error", "Errorf", "Fail"}
 
 // c14Prop builds the property; every call of it is one case on a fresh or reused T.
+// c14locked is a piece of the user's own state: it is protected by the user's own lock, also while it is printed.
+type c14locked struct {
+	mu *sync.Mutex
+	n  int
+}
+
+func (s *c14locked) String() string {
+	s.mu.Lock()
+	defer s.mu.Unlock()
+	return fmt.Sprintf("state(%d)", s.n)
+}
+
 func c14Prop(sc Scenario, cases *[]*c14case) func(t *rapid.T) {
 	return func(t *rapid.T) {
 		var u uint64
@@ -272,6 +284,11 @@ func c14Prop(sc Scenario, cases *[]*c14case) func(t *rapid.T) {
 				}()
 			}
 		}
+		// the user's own lock: in a fifth of the scenarios the workers call the non-logging methods of T while holding
+		// it, and pass a value whose String method takes it to the logging ones (lock order: user lock, then T's)
+		var stMu sync.Mutex
+		st := &c14locked{mu: &stMu, n: int(u % 100)}
+		userLock := sc.Seed%5 == 2
 		for g := 0; g < G; g++ {
 			wg.Add(1)
 			go func(g int) {
@@ -290,20 +307,39 @@ func c14Prop(sc Scenario, cases *[]*c14case) func(t *rapid.T) {
 					}
 					rec := c14op{G: g, Op: op}
 					rec.Call = c14tick.Add(1)
+					held := false
+					if userLock {
+						switch op {
+						case "Log", "Logf", "Error", "Errorf":
+						default:
+							stMu.Lock()
+							held = true
+						}
+					}
 					switch op {
 					case "Helper":
 						t.Helper()
 					case "Name":
 						_ = t.Name()
 					case "Log":
-						t.Log("goroutine", g)
+						if userLock {
+							t.Log("goroutine", g, st)
+						} else {
+							t.Log("goroutine", g)
+						}
 					case "Logf":
-						t.Logf("goroutine %d", g)
+						if userLock {
+							t.Logf("goroutine %d sees %v", g, st)
+						} else {
+							t.Logf("goroutine %d", g)
+						}
 					case "Error":
 						t.Error("concurrent failure")
 						failing[g]++
 					case "Errorf":
-						if r.chance(1, 2) {
+						if userLock && r.chance(1, 2) {
+							t.Errorf("worker %d found %v broken", g, st)
+						} else if r.chance(1, 2) {
 							// the message is what the arguments were when Errorf was called: the caller may reuse them at once
 							args := []int{g, i}
 							t.Errorf("worker %v failed", args)
@@ -326,6 +362,9 @@ func c14Prop(sc Scenario, cases *[]*c14case) func(t *rapid.T) {
 						}
 					case "Cleanup":
 						register()
+					}
+					if held {
+						stMu.Unlock()
 					}
 					rec.Return = c14tick.Add(1)
 					perG[g] = append(perG[g], rec)
